@@ -17,26 +17,26 @@ import (
 const modPath = "github.com/tonistiigi/fsutil"
 
 type Engine struct {
-	repo     string
-	fset     *token.FileSet
-	prog     *ssa.Program
-	pkgs     []*packages.Package
-	allPkgs  map[string]*types.Package // by path
-	ssaPkgs  map[string]*ssa.Package
-	cs       *Contracts
-	typeIDs  map[string]int
-	funcIDs  map[string]int
-	mathint  *types.Named
-	inlCache map[*ssa.Function]bool
-	stateSorts map[string]string
-	prevWrites map[string]map[int]*writeSet
+	repo        string
+	fset        *token.FileSet
+	prog        *ssa.Program
+	pkgs        []*packages.Package
+	allPkgs     map[string]*types.Package // by path
+	ssaPkgs     map[string]*ssa.Package
+	cs          *Contracts
+	typeIDs     map[string]int
+	funcIDs     map[string]int
+	mathint     *types.Named
+	inlCache    map[*ssa.Function]bool
+	stateSorts  map[string]string
+	prevWrites  map[string]map[int]*writeSet
 	funcsByName map[string]*ssa.Function
-	houdini  map[string]*houdiniState
-	imports  map[string]string // alias -> package path (from contract files)
-	prevVC   *VC
-	solvers  *Solvers
-	workers  int
-	chanScan map[string]string
+	houdini     map[string]*houdiniState
+	imports     map[string]string // alias -> package path (from contract files)
+	prevVC      *VC
+	solvers     *Solvers
+	workers     int
+	chanScan    map[string]string
 }
 
 func NewEngine(repo string) (*Engine, error) {
@@ -254,6 +254,7 @@ type UnitResult struct {
 	Loops      int
 	LoopsAnnot int
 	Obls       []*Obligation
+	Unbound    []string // clauses that did not bind to the code (skipped)
 	Notes      []string
 	Trusted    []string
 	Err        string // binding/unsupported error: unit undecided
@@ -324,6 +325,7 @@ func (eng *Engine) VerifyFunc(key string) (res *UnitResult) {
 		}
 	}
 	res.vc = vc
+	res.Unbound = vc.unbound
 	res.Obls = vc.obls
 	res.Notes = vc.notes
 	for t := range vc.trusted {
@@ -459,7 +461,11 @@ func (eng *Engine) translate(unit, mode string, fn *ssa.Function, fc *FuncContra
 		penv.resolve = fvResolve
 		bindResults(penv, fn, results)
 		for k, c := range fc.Ensures {
-			t := fr.evalGoal(c, penv, "ensures")
+			c := c
+			t, bound := fr.tolerate(func() string { return fr.evalGoal(c, penv, "ensures") })
+			if !bound {
+				continue
+			}
 			label := c.Label
 			if label == "" {
 				label = fmt.Sprint(k)
